@@ -50,6 +50,13 @@ def asOp (j : Json) : R Op := do
   | "ds_sort_by" => pure (.dsSortBy (← fld j "by" >>= asStr))
   | o => throw s!"unknown in-place operation {o}"
 
+/-- write discipline of reorder / sort_by / append; the current tree re-binds (default) -/
+def asDisc (j : Json) : R Disc := do
+  match fldD j "disc" (Json.str "rebind") with
+  | .str "rebind" => pure Disc.rebind
+  | .str "assign_into" => pure Disc.assignInto
+  | _ => throw "disc must be \"rebind\" or \"assign_into\""
+
 def ofDesc (d : Desc) : Json :=
   ofList (fun (p : String × List Val) => Json.arr #[Json.str p.1, ofList Json.str p.2]) d
 
@@ -60,18 +67,19 @@ def ofContent (c : List (String × Content)) : Json :=
     | .dict d => Json.arr #[Json.str p.1, Json.str "d", ofDesc d]) c
 
 /-- which writable attributes of the roots `as` can be read through the roots `bs` -/
-def sharedReport (h : Heap) (side : String) (as bs : List Loc) : List Json :=
+def sharedReport (d : Disc) (h : Heap) (side : String) (as bs : List Loc) : List Json :=
   let rb := reachSide h bs
   as.flatMap (fun a =>
     (if rb.contains a then [Json.arr #[Json.str side, ofNat a, Json.str "<object>"]] else []) ++
     (fieldsOf (h.cells a)).filterMap (fun p =>
-      if (fieldWr p).any (fun l => rb.contains l) then
+      if (fieldWr d p).any (fun l => rb.contains l) then
         some (Json.arr #[Json.str side, ofNat a, Json.str p.1])
       else none))
 
 /-- run a history on an observed heap; dump every root after every step -/
 def runOp (j : Json) : R Json := do
   let h ← asHeap j
+  let d ← asDisc j
   let src ← fld j "src" >>= asList asNat
   let res ← fld j "res" >>= asList asNat
   let hist ← (← fld j "hist" >>= asArr).mapM (fun s => do
@@ -79,10 +87,10 @@ def runOp (j : Json) : R Json := do
   let roots := src ++ res
   let dumpAll (h : Heap) : Json := ofList (fun r => ofContent (content h r)) roots
   let (_, trace) := hist.foldl (fun (acc : Heap × List Json) (s : Loc × Op) =>
-    let h' := step acc.1 s.1 s.2
+    let h' := step d acc.1 s.1 s.2
     (h', acc.2 ++ [dumpAll h'])) (h, [dumpAll h])
-  pure (obj [("sep", Json.bool (sepB h src res)),
-             ("shared", Json.arr (sharedReport h "src" src res ++ sharedReport h "res" res src).toArray),
+  pure (obj [("sep", Json.bool (sepB d h src res)),
+             ("shared", Json.arr (sharedReport d h "src" src res ++ sharedReport d h "res" res src).toArray),
              ("trace", Json.arr trace.toArray)])
 
 def instrName : Instr → String
@@ -107,8 +115,9 @@ def probeHeap : Heap :=
     next := 11 }
 
 /-- the write set of every modelled in-place operation, as the instruction list says -/
-def writesOp (_ : Json) : R Json := do
-  let names (a : Loc) (op : Op) : Json := ofList Json.str ((compile probeHeap a op).map instrName)
+def writesOp (j : Json) : R Json := do
+  let d ← asDisc j
+  let names (a : Loc) (op : Op) : Json := ofList Json.str ((compile d probeHeap a op).map instrName)
   pure (obj [("reorder", names 0 (.reorder [1, 0, 2])),
              ("sort_by", names 0 (.sortBy "cond" ["a", "b", "c"] true)),
              ("append", names 0 (.append 1 ["4.0", "5.0", "6.0"] [("index", ["0"])])),
